@@ -379,6 +379,81 @@ impl Property for C04 {
                             }
                         }
                     }
+                    // block-level edits: remove / duplicate / swap whole blocks (header, data,
+                    // padding, check), with the index left alone or rewritten to match
+                    for s in &w.streams {
+                        let nb = s.blocks.len();
+                        let span = |i: usize| -> (usize, usize) {
+                            let b = &s.blocks[i];
+                            (b.offset, b.check_offset + b.check_len)
+                        };
+                        let rebuild_index = |recs: &[(u64, u64)]| -> Vec<u8> {
+                            let mut idx = vec![0u8];
+                            vli_encode(recs.len() as u64, &mut idx);
+                            for (a, b) in recs {
+                                vli_encode(*a, &mut idx);
+                                vli_encode(*b, &mut idx);
+                            }
+                            while idx.len() % 4 != 0 {
+                                idx.push(0);
+                            }
+                            let c = crc32(&idx);
+                            idx.extend_from_slice(&c.to_le_bytes());
+                            idx
+                        };
+                        let recs: Vec<(u64, u64)> = s.blocks.iter().map(|b| (b.unpadded_size, b.uncompressed_size)).collect();
+                        for i in 0..nb.min(4) {
+                            let (a, e) = span(i);
+                            if nb >= 2 {
+                                let mut m = base.clone();
+                                m.drain(a..e);
+                                k += 1;
+                                check(&m, 8, k, &|| format!("block {i} of {nb} removed, index untouched"), obs)?;
+                            }
+                            let mut m = base.clone();
+                            let seg = base[a..e].to_vec();
+                            m.splice(e..e, seg);
+                            k += 1;
+                            check(&m, 8, k, &|| format!("block {i} of {nb} duplicated, index untouched"), obs)?;
+                            if i + 1 < nb {
+                                let (a2, e2) = span(i + 1);
+                                let mut m = Vec::new();
+                                m.extend_from_slice(&base[..a]);
+                                m.extend_from_slice(&base[a2..e2]);
+                                m.extend_from_slice(&base[a..e]);
+                                m.extend_from_slice(&base[e2..]);
+                                k += 1;
+                                check(&m, 8, k, &|| format!("blocks {i} and {} swapped", i + 1), obs)?;
+                            }
+                            // index edits with a consistent CRC and footer: one record too many /
+                            // one too few / sizes of a record changed
+                            for variant in 0..3 {
+                                let mut r2 = recs.clone();
+                                match variant {
+                                    0 => r2.push(recs[i]),
+                                    1 => {
+                                        r2.remove(i);
+                                    }
+                                    _ => r2[i].1 += 1,
+                                }
+                                let idx = rebuild_index(&r2);
+                                let mut m = Vec::new();
+                                m.extend_from_slice(&base[..s.index_offset]);
+                                m.extend_from_slice(&idx);
+                                let mut foot = Vec::new();
+                                foot.extend_from_slice(&((idx.len() / 4 - 1) as u32).to_le_bytes());
+                                foot.extend_from_slice(&[0, s.check_id]);
+                                let c = crc32(&foot);
+                                m.extend_from_slice(&c.to_le_bytes());
+                                m.extend_from_slice(&foot);
+                                m.extend_from_slice(b"YZ");
+                                m.extend_from_slice(&base[s.end..]);
+                                obs.class("fixup");
+                                k += 1;
+                                check(&m, 9, k, &|| format!("index rewritten consistently: variant {variant} at record {i} of {nb}"), obs)?;
+                            }
+                        }
+                    }
                 } else {
                     let w = walk_lzip(&base);
                     if w.error.is_some() {
